@@ -23,12 +23,19 @@
 //!   `thread::park_timeout` so everything compiles, but loom tests must not
 //!   exercise timeout paths.
 
+#[cfg(not(all(excsn_fibre_verif, excsn_fibre_verif_shuttle)))]
 #[cfg(not(loom))]
 mod real;
 #[cfg(loom)]
 mod mocked;
+// Third backend for the external verification harness (see `verif.rs`).
+#[cfg(all(excsn_fibre_verif, excsn_fibre_verif_shuttle, not(loom)))]
+pub(crate) mod verif;
 
+#[cfg(not(all(excsn_fibre_verif, excsn_fibre_verif_shuttle)))]
 #[cfg(not(loom))]
 pub(crate) use real::*;
 #[cfg(loom)]
 pub(crate) use mocked::*;
+#[cfg(all(excsn_fibre_verif, excsn_fibre_verif_shuttle, not(loom)))]
+pub(crate) use verif::*;
